@@ -19,6 +19,8 @@ HARNESS = os.path.join(VERIF, "harness")
 TARGET = os.path.join(VERIF, "target")
 REPO = os.environ.get("VERIF_REPO", "/repo")
 NCPU = int(os.environ.get("VERIF_JOBS", str(os.cpu_count() or 4)))
+# terms nested a few thousand levels deep are part of the workloads (json is recursive)
+sys.setrecursionlimit(max(sys.getrecursionlimit(), 30000))
 
 
 def seed():
